@@ -7,6 +7,20 @@ export GOFLAGS=-mod=mod GOPROXY=off GODEBUG=randautoseed=0 CGO_ENABLED=0
 unset GOTOOLCHAIN GOSUMDB
 mkdir -p bin evidence replays
 cp -f /repo/go.sum go.sum 2>/dev/null
+if [ "${1:-}" = "race" ]; then
+  # separate FREE-RUNNING pass under the race detector (not a registered check; see checks/racepass.go, DESIGN §2.6):
+  #   ./run.sh race [seconds]   -> exit 0 no race reported, 66 the detector reported one (stderr), 2 build failure
+  mkdir -p race
+  if ! CGO_ENABLED=1 go build -race -tags verif -o "bin/vc.race.$$" ./cmd/vc 2> "bin/build.$$.log"; then
+    echo "HARNESS-ERROR: -race build failed:" >&2; cat "bin/build.$$.log" >&2; rm -f "bin/build.$$.log"; exit 2
+  fi
+  rm -f "bin/build.$$.log"
+  "bin/vc.race.$$" race "${2:-120}" 2> race/last_run.stderr | tee race/last_run.txt
+  rc=${PIPESTATUS[0]}
+  rm -f "bin/vc.race.$$"
+  echo "exit=$rc races_reported=$(grep -c 'WARNING: DATA RACE' race/last_run.stderr)" | tee -a race/last_run.txt
+  exit $rc
+fi
 tmp="bin/vc.$$"
 ov=()
 if [ -n "${VERIF_OVERLAY:-}" ]; then ov=(-overlay "$VERIF_OVERLAY"); fi
